@@ -289,6 +289,12 @@ pub struct Model<T> {
     pub stored_items: Vec<T>,
     /// the stored layer is not known to the model (after a rollback, until the next write)
     pub stored_uncertain: bool,
+    /// deleted slots whose bytes on disk the model cannot know: slots that were deleted in a
+    /// restored snapshot, or deleted while their restored value lived only in the overlay a
+    /// rollback leaves behind (the deletion discards that overlay entry, the disk keeps
+    /// whatever the rolled-back commit wrote). Stored-only views return those bytes, which
+    /// nothing specifies; their contents are not compared while such a slot exists.
+    pub unknown_phys: BTreeSet<usize>,
     pub epoch: u64,
     /// committed states still forming the current chain (C04): chain[0] = state at import
     pub chain: Vec<Snap<T>>,
@@ -320,6 +326,7 @@ impl<T: Elem> Model<T> {
             phys: vec![],
             stored_items: vec![],
             stored_uncertain: false,
+            unknown_phys: BTreeSet::new(),
             epoch: 0,
             chain: vec![Snap {
                 items: vec![],
@@ -356,7 +363,7 @@ impl<T: Elem> Model<T> {
     fn written(&mut self) {
         self.stored = self.items.len();
         self.stored_items = self.phys.clone();
-        self.stored_uncertain = false;
+        self.stored_uncertain = !self.unknown_phys.is_empty();
         self.undone_trunc = false;
     }
     fn set(&mut self, i: usize, v: T) {
@@ -367,11 +374,13 @@ impl<T: Elem> Model<T> {
             self.items[i] = Some(v);
             self.phys[i] = v;
         }
+        self.unknown_phys.remove(&i);
     }
     fn cut(&mut self, i: usize) {
         if i < self.items.len() {
             self.items.truncate(i);
             self.phys.truncate(i);
+            self.unknown_phys.retain(|&k| k < i);
             if i < self.stored {
                 self.stored = i;
                 self.stored_items.truncate(i);
@@ -391,6 +400,7 @@ impl<T: Elem> Model<T> {
         self.phys = s.items.iter().map(|v| v.unwrap_or_default()).collect();
         self.stamp = s.stamp;
         self.stored_uncertain = true;
+        self.unknown_phys = s.items.iter().enumerate().filter(|(_, v)| v.is_none()).map(|(i, _)| i).collect();
     }
 }
 
@@ -753,6 +763,9 @@ where
                 if i < len {
                     m.items[i] = None;
                     m.uncommitted = true;
+                    if m.stored_uncertain {
+                        m.unknown_phys.insert(i);
+                    }
                 }
                 Ok(String::new())
             }
@@ -762,6 +775,9 @@ where
                 if got.is_some() {
                     m.items[i] = None;
                     m.uncommitted = true;
+                    if m.stored_uncertain {
+                        m.unknown_phys.insert(i);
+                    }
                 }
                 Ok(format!("{got:?}"))
             }
@@ -1558,7 +1574,7 @@ where
                 m.uncommitted,
                 m.tainted,
                 m.commits_done,
-                (m.stored_uncertain, m.truncated_since_commit, m.undone_trunc, m.stale_below, &m.damaged)
+                (m.stored_uncertain, &m.unknown_phys, m.truncated_since_commit, m.undone_trunc, m.stale_below, &m.damaged)
             )
             .as_bytes(),
         );
